@@ -58,3 +58,33 @@ def prepare(chk, module, cfg="default"):
         chk.broken.append({"config": cfg, "build": log[-1500:]})
         return None
     return registry.load(cfg)
+
+
+KUZ_BACKENDS = {"default": "sse2", "kuzsoft": "soft", "kuzcompact": "compact"}
+
+
+def kuz_backend_corr(chk, n):
+    """each Kuznyechik build against the Lean model OF THAT BACKEND (`kuz <backend> …` lines: big_soft tables and
+    3-block batches, SSE2 4-block batches, compact), not only against the registry model (compact)."""
+    r = chk.rng
+    from ..common import CONFIGS, build_harness, run_harness, run_driver
+    gen = []
+    for i in range(n):
+        k = r.structured(32) if i % 4 == 0 else r.bytes(32)
+        cnt = 1 + r.below(14)
+        data = b"".join(r.bytes(16) for _ in range(cnt))
+        for d in ("enc", "dec"):
+            gen.append((d, hx(k), hx(data)))
+    for cn, be in KUZ_BACKENDS.items():
+        cfg = CONFIGS[cn]
+        ok, log = build_harness(cfg)
+        if not ok:
+            chk.broken.append({"config": cn, "build": log[-1500:]})
+            continue
+        hops = [f"{d}s Kuznyechik inplace 0 {k} {x}" for d, k, x in gen]
+        mops = [f"kuz {be} {d} {k} {x}" for d, k, x in gen]
+        impl = [o.split(" ")[0] for o in run_harness(cfg, hops)]
+        model = run_driver(mops)
+        chk.compare(cn, mops, impl, model, family="kuz-" + be)
+        if cn not in chk.configs:
+            chk.configs.append(cn)
